@@ -138,6 +138,29 @@ def run_history(case, ctx, sdir):
                     if [e for e in cv.errors if "SENTINEL" not in str(e.msg)]:
                         rec.violation("private/reset-validation-ran-default-rules", "", dict(case, upto=si))
                     cv.report()
+                    # the library's own rule functions registered on custom validations must be repeatable too
+                    import odml.validation as ov
+                    rules = {"odML": [ov.section_unique_ids, ov.document_unique_ids, ov.section_unique_name_type],
+                             "section": [ov.section_unique_ids, ov.property_unique_ids, ov.property_unique_names,
+                                         ov.section_type_must_be_defined, ov.object_name_readable,
+                                         ov.section_properties_cardinality, ov.section_sections_cardinality],
+                             "property": [ov.property_dependency_check, ov.property_values_check,
+                                          ov.property_values_cardinality, ov.object_required_attributes]}
+                    pick = step[2] % 7
+                    results = []
+                    for rep in range(3):
+                        lv = Validation(tgt, validate=False, reset=True)
+                        for klass, fns in rules.items():
+                            lv.register_custom_handler(klass, fns[pick % len(fns)])
+                        lv.run_validation()
+                        results.append(issues_of(lv))
+                        if rep == 1:
+                            lv.run_validation()
+                            results.append(issues_of(lv))
+                    rec.monitor("repeat")
+                    if any(r != results[0] for r in results[1:]):
+                        rec.violation("repeat/custom-validation-with-library-rules-differs",
+                                      "issue counts %r" % [len(r) for r in results], dict(case, upto=si))
                 elif name == "create":
                     par = secs[step[1] % len(secs)] if secs else doc
                     if step[2]:
